@@ -81,6 +81,7 @@ pub fn classify(case: &Case, prog: &Prog, cx: &mut Cx) {
     cx.class_if(matches!(case.incoming, Some(Incoming { span: None, .. })), "incoming-trace-only");
     cx.class_if(case.incoming.is_none(), "no-incoming");
     cx.class_if(case.rng == RngKind::Empty, "empty-rng");
+    cx.class_if(matches!(case.rng, RngKind::Sequential(_)), "sequential-rng");
     cx.class_if(st.events_in_disabled, "event-inside-disabled-span");
     cx.class_if(st.sync_in_async, "sync-span-in-async-body");
     cx.class_if(st.async_in_sync, "async-span-in-sync-body");
